@@ -79,15 +79,15 @@ finally:
 """
 
 
-def fresh_reference(files, config, how, order=None):
+def fresh_reference(files, config, how, order=None, hashseed="0"):
     """The same lint run in a pristine interpreter (no module-level state from earlier runs)."""
     import json
     import subprocess
-    key = json.dumps([sorted(files.items()), config, how, order])
+    key = json.dumps([sorted(files.items()), config, how, order, hashseed])
     if key not in _REF_CACHE:
         p = subprocess.run(["/verif/.venv/bin/python", "-c", _REF_SCRIPT], input=json.dumps(
             {"files": files, "config": config, "how": how, "order": order}), capture_output=True, text=True,
-            env=dict(os.environ, PYTHONPATH="/repo", PYTHONHASHSEED="0"), timeout=300)
+            env=dict(os.environ, PYTHONPATH="/repo", PYTHONHASHSEED=hashseed), timeout=300)
         if p.returncode != 0:
             raise RuntimeError("reference run failed: " + p.stderr[-500:])
         _REF_CACHE[key] = Counter(tuple(x) for x in json.loads(p.stdout.strip().splitlines()[-1]))
@@ -178,6 +178,11 @@ def h_order(ctx):
     ctx.require("same-on-repetition", got == twice)
     ctx.require("equals-run-in-a-pristine-process", got == pristine, order=names,
                 only_here=[list(k)[:3] for k in list(got - pristine)[:4]], only_pristine=[list(k)[:3] for k in list(pristine - got)[:4]])
+    # a sample of interpreter hash seeds (validation only: three seeds, not "every seed")
+    for seed in ("1", "4242", "random"):
+        other = fresh_reference(dict(FILES), "dry:\n  enabled: true\n  storage_mode: memory\n", "files", sorted(ORDER), hashseed=seed)
+        ctx.require("same-under-sampled-hash-seeds", other == pristine, seed=seed,
+                    differs=[list(k)[:3] for k in list((other - pristine) + (pristine - other))[:4]])
 
 
 def _snapshot(root):
@@ -228,7 +233,7 @@ def h_side_effects(ctx):
 
 ASSUMPTIONS = (
     "the reference for every history is a fresh Linter on the files as they are now",
-    "PYTHONHASHSEED dependence is not explored here (hash values cannot be made symbolic across the C str hash); order dependence is explored by permuting the file list",
+    "PYTHONHASHSEED: hash values cannot be made symbolic across the C str hash; three seeds (1, 4242, random) are compared as a validation sample only; order dependence is explored by permuting the file list",
     "side effects: the project directory and the process temporary directory are snapshotted around an in-process CLI run; with --parallel the real process pool is used",
 )
 
